@@ -11,7 +11,7 @@ from rsim.prf import Rng, digest
 PROP = "C10"
 LEVEL = "exploration"
 TIERS = {
-    "quick": {"cases": 200, "budget_s": 90, "batch": 64},
+    "quick": {"cases": 350, "budget_s": 150, "batch": 64},
     "thorough": {"cases": 6000, "budget_s": 900, "batch": 64},
 }
 RULE = (
